@@ -505,6 +505,7 @@ def main(argv, here, repo):
     confirmed = []
     known_lines = []
     MAX_CONFIRM = 6
+    unreproduced = []
     for sig in sorted(by_sig):
         idxs = by_sig[sig]
         i = idxs[0]
@@ -533,9 +534,12 @@ def main(argv, here, repo):
                                 [dict(sig=x['sig'], msg=x['msg']) for x in results[i]['viol']], hist)
             sigs3 = run_replay_subprocess(here, pid, path) if hist else None
             if not sigs3 or sig not in sigs3:
+                # not a verdict on its own; if another signature of this run is confirmed the run still ends with that
+                # (reproducible) violation, otherwise the run is a harness fault (exit 3)
                 print('HARNESS-NONDETERMINISM: %s did not reproduce from %s (got %s / with history %s)'
                       % (sig, path, sigs2, sigs3))
-                return 3
+                unreproduced.append(sig)
+                continue
             print('  (reproduces only after the %d cases that ran before it in the same process: state is '
                   'carried between calls)' % len(hist))
         if k:
@@ -547,6 +551,13 @@ def main(argv, here, repo):
             print('  %s x%d: %s' % (sig, len(idxs), viol[0]['msg']))
             print('VIOLATION property=%s replay=%s' % (pid, path))
             exit_code = 1
+
+    if unreproduced and not confirmed and not known_lines:
+        print('HARNESS: no violation of this run could be reproduced from a fresh process (%s)' % unreproduced)
+        return 3
+    if unreproduced:
+        print('  (%d further signature(s) depended on what the worker process had run before and were not reproduced in '
+              'isolation: %s)' % (len(unreproduced), unreproduced))
 
     # ------------------------------------------------------------ evidence
     keys = set()
